@@ -19,7 +19,8 @@ EXPLANATION = (
     " ROUNDS 5-6: R9-FLAGS-FLOW: the flag set stored in the tree derives from the flags parameter and from no set constructor; R10-SPAN-END: the last token event before an EndOfSpan is built is a cursor() read (forward dataflow on the MIR)."
     " ROUND 7: R4 also: the four `&` counting loops of both parsers accept the same largest number of ampersands (sibling agreement)."
     " ROUND 9: R11-RESERVATIONS-DO-NOT-NEST (call graph, both generations): nothing reachable from the code that runs under a token reservation takes a reservation itself (its release would reset the outer window to the whole rest of the input)."
-    " ROUND 10: R12-CHAIN-CONTINUES: in parse_rest_of_bitwise_expression the operators that start a chain are the operators that continue it.")
+    " ROUND 10: R12-CHAIN-CONTINUES: in parse_rest_of_bitwise_expression the operators that start a chain are the operators that continue it."
+    " ROUND 11: R13-OLDER-NODE-IS-CURRENT: in the four chain-building loops of the second-generation parser push_older_node refers to the local the loop itself reassigns (or a copy of it taken inside the loop).")
 
 PX = "delta::parser::parse_tree::parse_tree_xml::print_xml"
 PN = "delta::parser::parse_node::ParseNode"
@@ -727,6 +728,12 @@ def r13_older_node_is_current(run, F):
                 if not (hirq.callee(c) or "").endswith("ParseBuffer::push_older_node") or any(c is z for il in inner for z in walk(il)):
                     continue
                 a = hirq.unwrap_trivial(c["a"][0]) if c.get("a") else {}
+                # (a copy taken inside the loop, `let so_far = expression;`, is the accumulator as well)
+                for _ in range(3):
+                    lets = [x for x in walk(lp) if x.get("k") == "Let" and hirq.strip_ref(x["pat"]).get("lid") == a.get("lid") and isinstance(x.get("init"), dict)]
+                    if a.get("lid") in assigned or len(lets) != 1 or hirq.unwrap_trivial(lets[0]["init"]).get("k") != "Path":
+                        break
+                    a = hirq.unwrap_trivial(lets[0]["init"])
                 n += 1
                 run.ob("R13-OLDER-NODE-IS-CURRENT", "%s|site %d" % (p.split("::")[-1], n), a.get("k") == "Path" and a.get("lid") in assigned, F.where(b, c),
                        "the node referred to in a chain-building loop is the local the loop itself reassigns (the expression so far), not `%s` captured outside" % a.get("res"))
